@@ -1,6 +1,7 @@
 package main
 
 import (
+	"go/types"
 	"go/ast"
 	"go/token"
 	"sort"
@@ -130,6 +131,17 @@ func analyseLoopEffects(l *Loop) {
 			case ssa.CallInstruction:
 				l.HasCall = true
 				com := x.Common()
+				if bi, ok := com.Value.(*ssa.Builtin); ok && bi.Name() == "append" {
+					if sl, ok := com.Args[0].Type().Underlying().(*types.Slice); ok {
+						for _, k := range heapKeysOf(sl.Elem()) {
+							l.HeapSorts[k] = true
+						}
+					}
+					l.HasCall = false
+				}
+				if bi, ok := com.Value.(*ssa.Builtin); ok && (bi.Name() == "len" || bi.Name() == "cap") {
+					l.HasCall = false
+				}
 				for _, a := range com.Args {
 					if al, ok := a.(*ssa.Alloc); ok {
 						l.Cells[al] = true
@@ -175,10 +187,12 @@ func markWrite(l *Loop, addr ssa.Value) {
 			l.Cells[al] = true
 			return
 		}
-		if ss, ok := scalarSort(deref(a.Type())); ok {
-			l.HeapSorts[ss] = true
-		} else {
+		ks := heapKeysOf(deref(a.Type()))
+		if len(ks) == 0 {
 			l.AllHeaps = true
+		}
+		for _, k := range ks {
+			l.HeapSorts[k] = true
 		}
 	case *ssa.UnOp: // *p where p loaded from somewhere: unknown target
 		l.AllHeaps = true
